@@ -74,7 +74,11 @@ Definition plain (d : desc) : desc := mkDesc (d_mt d) (d_dig d) (d_size d) 0.
 (* descriptor.IsManifest = the media types content.Successors decodes *)
 Definition is_manifest (mt : N) : bool := (1 <=? mt) && (mt <=? 5).
 
-Record blob := mkBlob { b_hash : N; b_len : N; b_links : list gkey }.
+(* b_pre_hash / b_pre_links describe the first d_size bytes of the delivered bytes, for the
+   descriptor of the Push that carries the blob (equal to b_hash / b_links when nothing
+   follows them): content.LimitedStorage hands only that prefix to the storage. *)
+Record blob := mkBlob { b_hash : N; b_len : N; b_links : list gkey;
+                        b_pre_hash : N; b_pre_links : list gkey }.
 
 (* content.ReadAll / ioutil.CopyBuffer + VerifyReader: size and digest must match *)
 Definition verify (d : desc) (c : blob) : bool := (d_dig d =? b_hash c) && (d_size d =? b_len c).
@@ -427,3 +431,117 @@ Definition run_ospec (U : N -> gkey) (h : list op) : list out := snd (run (ospec
 (* final observable state: content map and tag map *)
 Definition final_mem (h : list op) : mspec := mem_abs (fst (run mem_step mem_init h)).
 Definition final_oci (h : list op) : ospec := oci_abs (fst (run oci_step oci_init h)).
+
+(* ---------- file store (content/file): a virtual CAS over named files ----------
+   Annotation-set ids are numbered so that a / 8 is the id of the
+   org.opencontainers.image.title annotation (0 = no title).  A path is identified
+   with the name it was resolved from (names are distinct clean relative paths;
+   path aliasing and traversal are C11's).  Not modelled: pushDir/unpack, Add,
+   restoreDuplicates (successor descriptors carry no titles), Close, the fallback
+   size limit, ForceCAS/SkipUnpack/PreservePermissions. *)
+Definition d_name (d : desc) : N := N.div (d_ann d) 8.
+
+Record file_store := mkFile {
+  f_names : list N;                (* nameToStatus entries whose exists flag is set *)
+  f_d2p : list (N * N);            (* digestToPath *)
+  f_disk : list (N * blob);        (* regular files under the working directory, by path *)
+  f_cas : list (gkey * blob);      (* fallback storage: cas.Memory *)
+  f_res : resolver;
+  f_graph : graph }.
+Definition file_init := mkFile [] [] [] [] res_init graph_init.
+
+Definition name_ok (d : desc) (s : file_store) : bool :=
+  (d_name d =? 0) || mem N.eqb (d_name d) (f_names s).
+
+(* Store.Fetch: Some blob | None = not found *)
+Definition file_fetch (d : desc) (s : file_store) : option blob :=
+  if name_ok d s then
+    match get N.eqb (d_dig d) (f_d2p s) with
+    | Some p => get N.eqb p (f_disk s)          (* os.Open; a missing file is not-found *)
+    | None => get gkey_eqb (gk d) (f_cas s)
+    end
+  else None.
+
+Definition file_exists (d : desc) (s : file_store) : bool :=
+  name_ok d s && (is_some (get N.eqb (d_dig d) (f_d2p s)) || is_some (get gkey_eqb (gk d) (f_cas s))).
+
+(* io.LimitReader(content, expected.Size): bytes after the first Size are never read *)
+Definition limit_reader (d : desc) (c : blob) : blob :=
+  if d_size d <? b_len c
+  then mkBlob (b_pre_hash c) (d_size d) (b_pre_links c) (b_pre_hash c) (b_pre_links c)
+  else c.
+
+Inductive ferr := FDuplicateName | FOverwrite.
+
+Inductive fout := FO (o : out) | FE (e : ferr).
+
+(* [fixed]: pushFile removes the file it created when the content does not verify
+   (the fix: commit on the repository branch); [fixed = false] is the code as found *)
+Definition file_step (fixed ignore_noname disable_overwrite : bool)
+           (s : file_store) (o : op) : file_store * fout :=
+  match o with
+  | Push d c =>
+      let index_after (s1 : file_store) :=
+        (* graph.Index(ctx, s, expected): content.Successors fetches through the store *)
+        match file_fetch d s1 with
+        | None => (s1, FO (OErr ENotFound))
+        | Some c1 => (mkFile (f_names s1) (f_d2p s1) (f_disk s1) (f_cas s1) (f_res s1)
+                             (g_index d (succ_of (gk d) c1) (f_graph s1)), FO OOk)
+        end in
+      if d_name d =? 0 then
+        if ignore_noname then (s, FO OOk)
+        else match get gkey_eqb (gk d) (f_cas s) with
+             | Some _ => (s, FO (OErr EAlreadyExists))
+             | None =>
+                 (* LimitedStorage.Push: io.LimitReader(content, expected.Size) *)
+                 let c := limit_reader d c in
+                 if verify d c
+                 then index_after (mkFile (f_names s) (f_d2p s) (f_disk s)
+                                          (put gkey_eqb (gk d) c (f_cas s)) (f_res s) (f_graph s))
+                 else (s, FO (OErr EMismatch))
+             end
+      else if mem N.eqb (d_name d) (f_names s) then (s, FE FDuplicateName)
+      else if disable_overwrite && is_some (get N.eqb (d_name d) (f_disk s)) then (s, FE FOverwrite)
+      else if verify d c
+      then index_after (mkFile (d_name d :: f_names s) (put N.eqb (d_dig d) (d_name d) (f_d2p s))
+                               (put N.eqb (d_name d) c (f_disk s)) (f_cas s) (f_res s) (f_graph s))
+      else (* os.Create truncated/created the file, the copy failed verification *)
+        (mkFile (f_names s) (f_d2p s)
+                (if fixed then del N.eqb (d_name d) (f_disk s) else put N.eqb (d_name d) c (f_disk s))
+                (f_cas s) (f_res s) (f_graph s), FO (OErr EMismatch))
+  | Fetch d =>
+      match file_fetch d s with
+      | Some c => (s, FO (OBytes (b_hash c) (b_len c)))
+      | None => (s, FO (OErr ENotFound))
+      end
+  | Exists d => (s, FO (OBool (file_exists d s)))
+  | Tag d r =>
+      match r with
+      | REmpty => (s, FO (OErr EMissingRef))
+      | _ => if file_exists d s
+             then (mkFile (f_names s) (f_d2p s) (f_disk s) (f_cas s) (res_tag d r (f_res s)) (f_graph s), FO OOk)
+             else (s, FO (OErr ENotFound))
+      end
+  | Resolve r =>
+      match r with
+      | REmpty => (s, FO (OErr EMissingRef))
+      | _ => match get ref_eqb r (r_index (f_res s)) with
+             | Some d => (s, FO (ODesc d))
+             | None => (s, FO (OErr ENotFound))
+             end
+      end
+  | Preds d => (s, FO (OPreds (map gk (g_predecessors d (f_graph s)))))
+  | Untag _ | Delete _ | Tags => (s, FO (OErr EUnsupported))
+  end.
+
+Definition fout_is_err (o : fout) : bool := match o with FO x => is_err x | FE _ => true end.
+
+Section RunF.
+  Context {S : Type} (step : S -> op -> S * fout).
+  Fixpoint runf (s : S) (h : list op) : S * list fout :=
+    match h with
+    | [] => (s, [])
+    | o :: h' => let (s1, x) := step s o in
+                 let (s2, xs) := runf s1 h' in (s2, x :: xs)
+    end.
+End RunF.
